@@ -8,6 +8,7 @@ fn main() {
         ("priority_queue", "nexosim/src/util/priority_queue.rs"),
         ("indexed_priority_queue", "nexosim/src/util/indexed_priority_queue.rs"),
         ("queue", "nexosim/src/channel/queue.rs"),
+        ("seq_futures", "nexosim/src/util/seq_futures.rs"),
     ];
     let mut f = std::fs::File::create(format!("{}/incl.rs", out)).unwrap();
     for (m, p) in files {
